@@ -191,6 +191,9 @@ def build(tree):
         if 'meta' in attrs:
             attrs['meta'] = materialize(attrs['meta'])
 
+        if tree.get('attr_order') == 'reversed':
+            attrs = dict(reversed(list(attrs.items())))
+
         if ctor:
             return factory(**attrs)
 
